@@ -71,8 +71,12 @@ def C03(tier, seed):
 
 
 def C05(tier, seed):
-    return hist_plan(["C05"], tier, seed, tokens=("spl", "t22"), must={"swap": 50, "increase_liquidity": 20, "decrease_liquidity": 20},
-                     explanation="LiqSum/TickSums/TickInit on the projected state after every instruction; toy instance: same invariants")
+    p = hist_plan(["C05"], tier, seed, tokens=("spl", "t22"), must={"swap": 50, "increase_liquidity": 20, "decrease_liquidity": 20},
+                  explanation="LiqSum/TickSums/TickInit on the projected state after every instruction; toy instance: same invariants; thorough tier: Apalache proves the "
+                              "invariants inductive over the liquidity rules for unbounded integer magnitudes (LiqInd.tla: base case + inductive step)")
+    if tier == "thorough":
+        p["apalache"] = [{"name": "LiqInd", "file": "LiqInd", "inv": "IndInv", "init": "Init", "indinit": "IndInit", "cinit": "ConstInit", "timeout": 7200}]
+    return p
 
 
 def C06(tier, seed):
